@@ -1338,6 +1338,7 @@ def factsXml : Xml.FactsXml where
 def factsSoap : Soap.FactsSoap where
   emptyBodyGuard := %s
   outHeaderTupleOk := %s
+  bareNothingIsEmptyElement := %s
 
 def factsClient : Client.FactsClient where
   kwFalsyKept := %s
@@ -1359,7 +1360,7 @@ def factsHist : Xml.FactsHist where
 end SpyneModel.Generated
 ''' % (f['nilRule'], str(f['xsiTypeCheck']).lower(), str(f['childAttrGuard']).lower(),
        str(f['emptyStringText']).lower(), str(f['streamSameTree']).lower(), str(f['emptyBodyGuard']).lower(),
-       str(f['outHeaderTupleOk']).lower(),
+       str(f['outHeaderTupleOk']).lower(), str(f['bareNothingIsEmptyElement']).lower(),
        str(f['kwFalsyKept']).lower(), str(f['childAttrsIgnored']).lower(), str(f['attrSoftChecked']).lower(),
        str(f['modifierChildSkipped']).lower(), str(f['dataTextUnicode']).lower(),
        str(f['commentsRemoved']).lower(), str(f['pisRemoved']).lower(), str(f['bytesJoinBeforeEncode']).lower(),
@@ -1569,6 +1570,27 @@ def measure_facts():
                              'expected': 'service with __out_header__ = (W0, W2) sets ctx.out_header = (W0(...), W2(...)): the '
                                          'response Header holds a W0 and a W2 element',
                              'observed': 'crash=%s fault=%s header children=%r' % (r.crash, r.fault, got)}
+    # bareNothingIsEmptyElement: a bare method without arguments and return value
+    u4 = witness_universe()
+    u4['idx'] = 9996
+    u4['methods'] = [{'name': 'e0', 'args': [], 'rets': [], 'style': 'bare'}]
+    b4 = build_classes(u4)
+    obs = {}
+    for proto in PROTOS:
+        app4, server4 = make_app(b4, proto, None)
+        finish_built(b4, app4)
+        b4.ret['e0'] = None
+        r = run_request(b4, server4, to_bytes(wrap_envelope(proto, [mk_node('urn:w', 'e0')])))
+        try:
+            el = unwrap_envelope(proto, etree.fromstring(r.out))
+            obs[proto] = (etree.QName(el).localname, dict(el.attrib), len(el))
+        except Exception as e:
+            obs[proto] = repr(e)
+    f['bareNothingIsEmptyElement'] = all(v == ('e0Response', {}, 0) for v in obs.values())
+    w['bareNothingIsEmptyElement'] = {'proto': 'xml/soap11/soap12', 'validator': None, 'request': '<e0 xmlns="urn:w"/> (bare, no '
+                                      'arguments, no return value)', 'expected': 'the body entry of the response is the empty '
+                                      'element <e0Response/> (no xsi:nil: the schema does not declare it nillable)',
+                                      'observed': repr(obs)}
     # kwFalsyKept: the Spyne client, keyword argument with value 0
     u3 = witness_universe()
     u3['idx'] = 9997
@@ -1634,9 +1656,10 @@ def measure_facts():
 GOOD = {'nilRule': 'xsdBoolean', 'xsiTypeCheck': True, 'childAttrGuard': True, 'emptyStringText': True,
         'emptyBodyGuard': True, 'outHeaderTupleOk': True, 'kwFalsyKept': True, 'streamSameTree': True,
         'childAttrsIgnored': True, 'attrSoftChecked': True, 'modifierChildSkipped': True, 'dataTextUnicode': True,
-        'commentsRemoved': True, 'pisRemoved': True, 'bytesJoinBeforeEncode': True, 'appendClearsMemo': True}
+        'commentsRemoved': True, 'pisRemoved': True, 'bytesJoinBeforeEncode': True, 'appendClearsMemo': True,
+        'bareNothingIsEmptyElement': True}
 SWITCH_PROPS = {'C01': ('nilRule', 'emptyStringText', 'outHeaderTupleOk', 'kwFalsyKept', 'streamSameTree', 'childAttrsIgnored',
-                        'attrSoftChecked', 'dataTextUnicode', 'commentsRemoved', 'pisRemoved', 'bytesJoinBeforeEncode'), 'C04': ('xsiTypeCheck',), 'C05': ('nilRule', 'emptyStringText', 'attrSoftChecked', 'childAttrsIgnored'),
+                        'attrSoftChecked', 'dataTextUnicode', 'commentsRemoved', 'pisRemoved', 'bytesJoinBeforeEncode', 'bareNothingIsEmptyElement'), 'C04': ('xsiTypeCheck',), 'C05': ('nilRule', 'emptyStringText', 'attrSoftChecked', 'childAttrsIgnored'),
                 'C10': ('childAttrGuard', 'emptyBodyGuard', 'modifierChildSkipped'), 'C16': ('streamSameTree', 'appendClearsMemo')}
 
 
@@ -1949,6 +1972,8 @@ def part_c01(ctx):
                     if len(r.calls) == 1 and not r.fault and not r.crash:
                         spelling_check(ctx, 'c01', b, app, server, proto, validator, wrap_envelope(proto, [req_node]), r,
                                        in_ty, replay, queries, expect)
+                        self_typed_check(ctx, 'c01', b, app, server, proto, validator, req_node, r, in_ty, replay,
+                                         queries, expect)
                     # ---- T2: model vs implementation
                     parsed = parse_like_spyne(data, app.in_protocol)
                     queries.append(decode_query(b, proto, validator, node_of(parsed)))
@@ -1963,6 +1988,7 @@ def part_c01(ctx):
                         if proto == 'xml' and validator is None:
                             stream_check(ctx, b, app, r, u, out_ty, want_out, body, replay, 'c01', queries, expect, mq)
     chunked_bytes(ctx, queries, expect)
+    c01_numbers(ctx)
     answers = ctx.model(queries, driver='C01')
     for q, (op, impl, case), mod in zip(queries, expect, answers):
         if impl is None:
@@ -2125,6 +2151,41 @@ def spell(rng, node, kinds):
     return (pre + text + post).encode('utf-8'), raw
 
 
+def self_typed_check(ctx, pid, b, app, server, proto, validator, req_node, plain, in_ty, replay, queries, expect):
+    """many SOAP toolkits always write xsi:type: every object element of a served request names ITS OWN declared class
+    (members, items of arrays of classes, repeated members — i.e. customised variants of the class) -> same call, same
+    arguments (T3), model == code (T2)"""
+    paths = [(pth, ct) for pth, ct in typed_objects(in_ty, req_node) if pth and ct['name'] in b.fields_of]
+    if not paths:
+        return
+    mut = clone(req_node)
+    for pth, ct in paths:
+        el = node_at(mut, pth)
+        el['a'] = el['a'] + [[XSI_TYPE, cps('{%s}%s' % (b.ns_of[ct['name']], ct['name']))]]
+    data = to_bytes(wrap_envelope(proto, [mut]))
+    r = run_request(b, server, data)
+    ctx.case({'p': proto, 'v': validator, 'own-xsi-type': hashlib_sha(data)}, True)
+    ctx.hit('own-xsi-type:%d' % min(len(paths), 3))
+    rp = dict(replay, request=data.decode('utf-8', 'replace'), own_xsi_type=len(paths))
+
+    def calls_of(rr):
+        return [(n, [from_native(b, t, a) for (_, t), a in zip(b.methods[n][1]['fields'], args)]) for n, args in rr.calls]
+    if r.crash:
+        ctx.finding('%s:own-xsi-type-crash:%s' % (pid, r.crash), 'a request whose object elements carry xsi:type naming their own '
+                    'declared class makes the server raise %s at %s' % (r.crash, r.tb), rp)
+    elif r.fault or r.in_fault:
+        ctx.finding('%s:own-xsi-type-rejected:%s:%s' % (pid, validator, r.in_fault or r.fault), 'a request whose object elements '
+                    'carry xsi:type naming their own declared class is answered with %s' % (r.in_fault or r.fault),
+                    dict(rp, response=(r.out or b'').decode('utf-8', 'replace')))
+    elif calls_of(r) != calls_of(plain):
+        ctx.finding('%s:own-xsi-type-args-differ' % pid, 'xsi:type naming the declared class changes what the function receives',
+                    dict(rp, received=calls_of(r), expected=calls_of(plain)))
+    parsed = parse_like_spyne(data, app.in_protocol)
+    if parsed is not None and t2_comparable(b, proto, node_of(parsed)):
+        queries.append(decode_query(b, proto, validator, node_of(parsed), need_iface=True))
+        expect.append(('decode', impl_decode_outcome(b, r), rp))
+
+
 def spelling_check(ctx, pid, b, app, server, proto, validator, node, plain, in_ty, replay, queries, expect):
     """T3: an alternative spelling of a request that was served is served alike — same call, same arguments;
     T2: what the protocol's parser hands over is the model's parserView of what was written"""
@@ -2198,6 +2259,97 @@ def chunked_bytes(ctx, queries, expect):
             queries.append({'op': 'bytes.chunksText', 'cfg': cfg_json(None), 'iface': {'classes': [], 'others': [], 'tns': ''},
                             'enc': enc, 'chunks': [list(c) for c in chunks]})
             expect.append(('bytes.chunksText', {'ok': cps(text)}, rp))
+
+
+# ====================================================================================== C01: numbers outside the Lean universe
+_NUM_SERVERS = {}
+
+
+def _number_specs():
+    """Decimal with total / fraction digits, Double, customised Integer: (name, type, parse, [literals that conform])"""
+    import decimal
+    from spyne import Decimal, Double, Integer, Integer32
+    D = decimal.Decimal
+    return [
+        ('decimal(7,2)', Decimal(7, 2), D, ['-12345.67', '-99999.99', '99999.99', '12345.67', '-0.01', '0', '-5', '100.5', '0.10']),
+        ('decimal(5,2)[-500,500]', Decimal(5, 2, ge=-500, le=500), D, ['-123.45', '-499.99', '499.99', '-500', '500.00', '0.5', '-0.05']),
+        ('decimal(3)', Decimal(3), D, ['-999', '999', '0', '-1']),
+        ('decimal(10,4)', Decimal(total_digits=10, fraction_digits=4), D, ['-123456.7890', '123456.789', '-999999.9999']),
+        ('decimal', Decimal, D, ['-12345678901234567890.0123456789', '1000', '-0.000001', '0.1']),
+        ('double', Double, float, ['0.1', '-1e-300', '1.7976931348623157e308', '-2.5', '4.9e-324', '1e0']),
+        ('double[0,1]', Double(ge=0.0, le=1.0), float, ['0', '1', '0.5', '1e-10']),
+        ('integer[-5,5]', Integer(ge=-5, le=5), int, ['-5', '5', '0']),
+        ('int32', Integer32, int, ['-2147483648', '2147483647']),
+    ]
+
+
+def _number_run(name, ty, proto, validator, literal):
+    """echo one value -> (arguments received, fault code, exception, text of the result element, request bytes)"""
+    from lxml import etree
+    from spyne import Application, ServiceBase, rpc, MethodContext
+    from spyne.server import ServerBase
+    key = (name, proto, validator)
+    if key not in _NUM_SERVERS:
+        calls = []
+
+        def echo(ctx, v):
+            calls.append(v)
+            return v
+        S = type('NumSvc', (ServiceBase,), {'echo': rpc(ty, _returns=ty)(echo)})
+        app = Application([S], 'urn:num', in_protocol=make_protocol(proto, validator), out_protocol=make_protocol(proto, None))
+        _NUM_SERVERS[key] = (ServerBase(app), calls)
+    server, calls = _NUM_SERVERS[key]
+    del calls[:]
+    data = to_bytes(wrap_envelope(proto, [mk_node('urn:num', 'echo', children=[mk_node('urn:num', 'v', text=cps(literal))])]))
+    ictx = MethodContext(server, MethodContext.SERVER)
+    ictx.in_string = [data]
+    try:
+        c, = server.generate_contexts(ictx)
+        if c.in_error is None:
+            server.get_in_object(c)
+        if c.in_error is None:
+            server.get_out_object(c)
+        err = c.in_error or c.out_error
+        server.get_out_string(c)
+        body = unwrap_envelope(proto, etree.fromstring(b''.join(c.out_string)))
+        res = body[0].text if err is None and len(body) else None
+        return list(calls), (err.faultcode if err is not None else None), None, res, data
+    except Exception as e:      # noqa: the finding
+        return list(calls), None, '%s: %s' % (type(e).__name__, e), None, data
+
+
+def c01_numbers(ctx):
+    """T3 only (the shared PrimTy has no decimal / double): conformant Decimal / Double / customised Integer values — all
+    digits used, negative, with fraction — reach the function and come back, every protocol x validator"""
+    for name, ty, parse, lits in _number_specs():
+        for proto in PROTOS:
+            for validator in VALIDATORS:
+                for lit in lits:
+                    calls, fault, exc, res, data = _number_run(name, ty, proto, validator, lit)
+                    want = parse(lit)
+                    ctx.case({'probe': 'number', 'type': name, 'p': proto, 'v': validator, 'lit': lit}, True)
+                    ctx.hit('c01:number:%s' % name)
+                    rp = {'kind': 'probe', 'probe': 'c01-number', 'type': name, 'proto': proto, 'validator': validator,
+                          'literal': lit, 'request': data.decode('utf-8', 'replace')}
+                    if exc or (fault and not fault.startswith('Client')):
+                        ctx.finding('c01:number-crash:%s' % name, 'a conformant %s value %r ends with %s' % (name, lit, exc or fault), rp)
+                    elif fault:
+                        ctx.finding('c01:number-rejected:%s:%s' % (name, validator), 'the conformant %s value %r is rejected with %s '
+                                    'under validator=%s' % (name, lit, fault, validator), rp)
+                    elif len(calls) != 1 or calls[0] != want or type(calls[0]) is not type(want):
+                        ctx.finding('c01:number-args-differ:%s' % name, 'the %s value %r reached the function as %r' % (
+                            name, lit, calls), rp)
+                    else:
+                        try:
+                            back = parse(res)
+                        except Exception:       # noqa
+                            back = None
+                        if back != want:
+                            ctx.finding('c01:number-response-differs:%s' % name, 'the response to %s %r carries %r' % (
+                                name, lit, res), rp)
+    ctx.cov['rule_numbers'] = ('T3 only (outside the Lean universe): Decimal with total_digits / fraction_digits (values that use '
+                               'every digit, negative, with fraction), plain Decimal, Double (extremes, INF), customised Integer; '
+                               'echo through {xml,soap11,soap12} x {None,soft,lxml}')
 
 
 # ====================================================================================== helpers shared by the parts
@@ -2369,6 +2521,77 @@ def response_fault_code(proto, out):
 
 
 # ====================================================================================== C04
+def typed_arrays(ty, node, path=()):
+    """(path, array type) of every element a decoder reads as a wrapped array"""
+    if any(k in (XSI_NIL, XSI_TYPE) for k, _ in node['a']):
+        return
+    if ty['k'] == 'obj':
+        fields = {k: t for k, t in ty['fields'] if not t.get('mk')}
+        for i, c in enumerate(node['c']):
+            if c['n'] in fields:
+                for x in typed_arrays(fields[c['n']], c, path + (i,)):
+                    yield x
+    elif ty['k'] == 'arr':
+        yield path, ty
+        for i, c in enumerate(node['c']):
+            for x in typed_arrays(ty['elem'], c, path + (i,)):
+                yield x
+
+
+def c04_array_retag(ctx, queries, expect):
+    """an element declared as a wrapped array carries xsi:type naming ANOTHER array type the interface knows, with children
+    whose text is a literal of many types ('7'): the declared item type must stay in force"""
+    rng = ctx.rng
+    n_univ = 40 if ctx.thorough else 8
+    for ui in range(n_univ):
+        u = gen_universe(rng, 1500 + ui, inherit=0.3)
+        b = build_classes(u)
+        servers = servers_for(b, validators=(None, 'soft'))
+        keys = [k for k in sorted(servers[('xml', None)][0].interface.classes) if k.startswith('{') and k.endswith('Array')]
+        if len(keys) < 2:
+            continue
+        for mname in sorted(b.methods):
+            key, in_ty, out_ty = b.methods[mname]
+            call = gen_call(rng, b, mname)
+            if call is None:
+                continue
+            args, rets = call
+            set_return(b, mname, out_ty, rets)
+            req = ref_encode_one(b, in_ty, msg_val(in_ty, args), u['tns'], mname, u['tns'])
+            arrs = list(typed_arrays(in_ty, req))
+            rng.shuffle(arrs)
+            for path, aty in arrs[:2]:
+                if not path:
+                    continue
+                for k in rng.sample(keys, min(len(keys), 4)):
+                    mut = clone(req)
+                    el = node_at(mut, path)
+                    el['a'] = [a for a in el['a'] if a[0] != XSI_TYPE] + [[XSI_TYPE, cps(k)]]
+                    if not el['c']:
+                        el['c'] = [mk_node(el['ns'], 'item'), mk_node(el['ns'], 'item')]
+                    for c in el['c']:
+                        c['a'], c['c'], c['x'] = [], [], cps('7')
+                    (proto, validator), (app, server) = rng.choice(sorted(servers.items(), key=str))
+                    data = to_bytes(wrap_envelope(proto, [mut]))
+                    r = run_request(b, server, data)
+                    ctx.case({'p': proto, 'v': validator, 'doc': mut}, True)
+                    ctx.hit('c04:array-retag:%s' % list(r.outcome_class())[0])
+                    replay = {'kind': 'c04', 'universe': u, 'proto': proto, 'validator': validator, 'method': mname,
+                              'request': data.decode('utf-8', 'replace'), 'retag': k, 'path': list(path)}
+                    if r.calls:
+                        vals = [from_native(b, t, a) for (_, t), a in zip(in_ty['fields'], r.calls[0][1])]
+                        for (an, t), v in zip(in_ty['fields'], vals):
+                            if not py_has_ty(b, t, v):
+                                ctx.finding('c04:foreign-value:array-retag', 'user code received a value that is not of the declared '
+                                            'type of %s after an array element was retagged with xsi:type=%s' % (an, k),
+                                            dict(replay, received=vals))
+                                break
+                    parsed = parse_like_spyne(data, app.in_protocol)
+                    if parsed is not None and t2_comparable(b, proto, node_of(parsed)):
+                        queries.append(decode_query(b, proto, validator, node_of(parsed), need_iface=True))
+                        expect.append(('decode', impl_decode_outcome(b, r), replay))
+
+
 def part_c04(ctx):
     """type-directed mutation: retag every element of valid requests with every class key the interface knows
     (and unknown ones); user code must only ever see values of the declared types (T3), model == code (T2)"""
@@ -2426,6 +2649,7 @@ def part_c04(ctx):
                                                         'ty': in_ty, 'val': None})
                         vv = queries[-1]['val']
                         expect.append(('hasTy', {'ok': py_has_ty_one(b, in_ty, vv)} if _no_bad(vv) else None, replay))
+    c04_array_retag(ctx, queries, expect)
     c04_sequences(ctx)
     attrs_hostile(ctx, 'c04')
     answers = ctx.model(queries, driver='C01')
@@ -2447,6 +2671,32 @@ def replay(ctx, obj):
     kind = obj.get('kind')
     if kind == 'c04seq':
         return replay_c04seq(ctx, obj)
+    if kind == 'probe' and obj.get('probe') == 'bare-none-inherited':
+        class _C(object):
+            found = []
+
+            def case(self, *a):
+                pass
+
+            def hit(self, *a):
+                pass
+
+            def finding(self, fid, what, rp):
+                self.found.append((what, rp))
+        c = _C()
+        bare_none_probe(c)
+        for what, rp in c.found:
+            print(rp['proto'], what, '\n    response:', rp['response'][:300])
+        print('%d protocols affected' % len(c.found))
+        return 1 if c.found else 0
+    if kind == 'probe' and obj.get('probe') == 'c01-number':
+        name, ty, parse, _ = [x for x in _number_specs() if x[0] == obj['type']][0]
+        calls, fault, exc, res, data = _number_run(name, ty, obj['proto'], obj['validator'], obj['literal'])
+        print('type %s, %s/%s, literal %r' % (name, obj['proto'], obj['validator'], obj['literal']))
+        print('request :', data)
+        print('received: %r  fault: %s  exception: %s  result text: %r' % (calls, fault, exc, res))
+        ok = not fault and not exc and calls == [parse(obj['literal'])] and res is not None and parse(res) == parse(obj['literal'])
+        return 0 if ok else 1
     if kind == 'probe' and obj.get('probe') == 'c16-history':
         new, problems = _hist_scenario(obj['op'])
         print('scenario: classes used, then %s_field(%r) on an ancestor, then round trips' % (obj['op'], new))
@@ -2857,6 +3107,8 @@ def part_c05(ctx):
                         exp = occ['nillable'] if p['t'] != 'enum' else False
                     else:
                         exp = bool(v is not None and py_prim_ok(p, v))
+                    if exp and not okv:
+                        exp = None      # the rest of the request is itself outside the claim (empty bytes at a non-nillable position)
                     tag = 'lexical:%s:%s' % (p['t'], lex_class(p['t'], s))
                     _c05_eval(ctx, b, servers, u, mname, in_ty, mut, exp, None, tag, queries, expect)
     # exhaustive: every value around the bounds of the 8-bit integer types, top-level / nested / array member
@@ -2956,6 +3208,9 @@ def _range_specs():
     decs = ['-100', '-1.500001', '-1.5', '-1.50', '-1.499999', '0', '9.999999999', '10', '10.0', '10.000000001', '1e1', '1E+3']
     specs.append(('decimal[ge,lt)', Decimal(ge=c0, lt=c1), [(x, c0 <= decimal.Decimal(x) < c1) for x in decs]))
     specs.append(('decimal(gt,le]', Decimal(gt=c0, le=c1), [(x, c0 < decimal.Decimal(x) <= c1) for x in decs]))
+    cd = [('-123.45', True), ('-499.99', True), ('499.99', True), ('500', True), ('500.00', True), ('-500', True), ('-500.01', False),
+          ('500.01', False), ('0.5', True), ('-0.05', True), ('-600', False)]
+    specs.append(('decimal(5,2)[ge,le]', Decimal(5, 2, ge=-500, le=500), cd))
     f0, f1 = 0.1, 2.5
     fls = [-1.0, 0.0, math.nextafter(f0, -1), f0, math.nextafter(f0, 1), 1.0, math.nextafter(f1, 0), f1, math.nextafter(f1, 9), 1e300]
     specs.append(('double(gt,le]', Double(gt=f0, le=f1), [(repr(x), f0 < x <= f1) for x in fls]))
@@ -3630,6 +3885,61 @@ def _single(t):
     return t
 
 
+_BARE_NONE = []
+
+
+def _bare_none_defect():
+    """is the _bare_response defect (own members instead of flat members) present in the tree under test?"""
+    if not _BARE_NONE:
+        class _C(object):
+            found = []
+
+            def case(self, *a):
+                pass
+
+            def hit(self, *a):
+                pass
+
+            def finding(self, fid, what, rp):
+                self.found.append(fid)
+        c = _C()
+        bare_none_probe(c)
+        _BARE_NONE.append(bool(c.found))
+    return _BARE_NONE[0]
+
+
+def bare_none_probe(ctx):
+    """deterministic witness of what the generated universes only meet by chance: a bare method declared `_returns=Sub`
+    (Sub adds no member of its own to Base) returns None — the response must still say None"""
+    from lxml import etree
+    from spyne import Application, ServiceBase, rpc, ComplexModel, Integer, Unicode, MethodContext
+    from spyne.server import ServerBase
+    mk = type(ComplexModel)
+    Base = mk('BnBase', (ComplexModel,), {'__namespace__': 'urn:bn', '_type_info': [('a', Integer), ('b', Unicode)]})
+    Sub = mk('BnSub', (Base,), {'__namespace__': 'urn:bn', '_type_info': []})
+    S = type('BnSvc', (ServiceBase,), {'f': rpc(_returns=Sub, _body_style='bare')(lambda ctx: None)})
+    for proto in PROTOS:
+        app = Application([S], 'urn:bn', in_protocol=make_protocol(proto), out_protocol=make_protocol(proto))
+        server = ServerBase(app)
+        data = to_bytes(wrap_envelope(proto, [mk_node('urn:bn', 'f')]))
+        ictx = MethodContext(server, MethodContext.SERVER)
+        ictx.in_string = [data]
+        c, = server.generate_contexts(ictx)
+        server.get_in_object(c)
+        server.get_out_object(c)
+        server.get_out_string(c)
+        out = b''.join(c.out_string)
+        body = unwrap_envelope(proto, etree.fromstring(out))
+        back = app.in_protocol.from_element(None, Sub, body)
+        ctx.case({'probe': 'bare-none-inherited', 'p': proto}, True)
+        ctx.hit('ext:bare-none-inherited:%s' % ('none' if back is None else 'instance'))
+        if back is not None:
+            ctx.finding('c01:bare-none-of-class-with-inherited-members', 'a bare method declared _returns=Sub (Sub adds no member of '
+                        'its own to Base(a, b)) returns None; the response reads back as %r, not None' % (back,),
+                        {'kind': 'probe', 'probe': 'bare-none-inherited', 'proto': proto, 'request': data.decode(),
+                         'response': out.decode('utf-8', 'replace')})
+
+
 def gen_bare(rng, ty, none_p=0.1):
     """a conformant single occurrence (the body entry itself)"""
     v = gen_one(rng, ty, none_p=none_p)
@@ -3724,7 +4034,18 @@ def part_c01_ext(ctx):
                 req = ref_encode_one(b, in_ty, inv, u['tns'], mname, u['tns'])
                 want_args = [py_norm_x(b, in_ty, inv, True)] if style == 'bare' else [] if style == 'empty' else \
                     [py_norm(t, v) for (_, t), (_, v) in zip(in_ty['fields'], inv['o'][1])]
-                want_out = py_norm_x(b, out_ty, outv, True)
+                outv_eff = outv
+                own = {c['name']: c['own'] for c in u['classes']}
+                if style != 'wrapped' and outv is None and out_ty['k'] == 'obj' and out_ty['fields'] and \
+                        own.get(out_ty['name'], True) == [] and _bare_none_defect():
+                    # reported once by bare_none_probe (fixes/C01-03); not again for every generated instance of it
+                    ctx.hit('ext:skip-bare-none-of-class-with-inherited-members')
+                    continue
+                if style != 'wrapped' and outv is None and out_ty['k'] == 'obj' and not out_ty['fields'] and \
+                        ctx.cov.get('facts_xml', GOOD)['bareNothingIsEmptyElement']:
+                    # nothing returned for a member-less response class IS the empty instance (XmlDocument._bare_response)
+                    outv_eff = {'o': [out_ty['name'], []]}
+                want_out = py_norm_x(b, out_ty, outv_eff, True)
                 # ---- headers
                 ih, oh = mi['in_hdr'], mi['out_hdr']
                 hvals, hpresent = [], False
@@ -3857,7 +4178,7 @@ def part_c01_ext(ctx):
                         if proto == 'xml' and validator is None:
                             stream_check(ctx, b, app, r, u, out_ty, want_out, body, replay, 'c01', queries, expect,
                                          {'op': 'xml.encode', 'cfg': cfg_json(None), 'iface': slim_iface(b, False), 'ns': u['tns'],
-                                          'name': mi['out_name'], 'ty': out_ty, 'val': outv})
+                                          'name': mi['out_name'], 'ty': out_ty, 'val': outv_eff})
                         queries.append({'op': 'argsOf', 'cfg': cfg_json(None), 'iface': slim_iface(b, False), 'style': style,
                                         'val': py_norm_x(b, in_ty, inv, True)})
                         expect.append(('argsOf', {'ok': want_args}, replay))
@@ -3873,6 +4194,7 @@ def part_c01_ext(ctx):
             ctx.hit('t2:oracle-schema-reject')
         elif norm_answer(mod) != impl:
             ctx.disagree(op, case, impl, mod)
+    bare_none_probe(ctx)
     ctx.cov['rule_ext'] = ('methods of every body style (wrapped with 0-3 arguments and 0-3 return values, bare, out_bare, bare without '
                            'argument = empty) declaring 0/1/2/3 in- and out-header classes; header objects sent in declared or reversed '
                            'order, with unknown header elements, partially or not at all; ctx.out_header set as single object / list / '
